@@ -11,10 +11,10 @@ from pgverif.gen import templates as TT
 from pgverif.monitors import genoref as G
 
 TIERS = {
-    'quick': dict(shards=8, max_dnas=6, family_stride=6, random=26, dnas=5,
-                  iter_max=40, corrupt=2, timeout_s=600),
-    'thorough': dict(shards=16, max_dnas=60, family_stride=1, random=420,
-                     dnas=12, iter_max=200, corrupt=3, timeout_s=3000,
+    'quick': dict(shards=8, max_dnas=6, family_stride=4, random=20, dnas=4,
+                  iter_max=24, corrupt=2, max_nodes=45, timeout_s=600),
+    'thorough': dict(shards=16, max_dnas=24, family_stride=1, random=160,
+                     dnas=8, iter_max=60, corrupt=3, max_nodes=60, timeout_s=3000,
                      case_timeout_s=300),
 }
 RULE = ('case = one template description (gen/templates.py) with a `where` '
@@ -116,17 +116,26 @@ def is_conditional(P, W):
   return P['t'] == 'choice' and any(TT.to_space(c, W)['elems'] for c in P['cands'])
 
 
+def family_of(P):
+  return TT.key_kind(P).split('[')[0]
+
+
 class Case:
   """One template under test."""
 
   def __init__(self, T, W, plain, bad_size, entry):
-    self.T, self.W, self.plain, self.bad_size, self.entry = T, W, plain, bad_size, entry
+    self.T, self.W, self.plain, self.entry = T, W, plain, entry
+    # the oversized manyof only matters when the filter keeps it
+    self.bad_size = bad_size and any(
+        p['t'] == 'choice' and p['k'] == 5 and TT.keep(W, p)
+        for p in TT.all_placeholders(T))
     self.space = TT.to_space(T, W)
     self.size = G.size(self.space)
     self.tops = TT.top_placeholders(T, W)
     self.root_choice = any(p == () for p, _ in self.tops)
     self.dist = TT.distinguishable(T, W)
     self.where = TT.where_fn(W)
+    self._dnas = {}
     self.record = {'template': TT.show(T), 'where': TT.show_where(W),
                    'entry': entry, 'plain_root': plain, 'description': T,
                    'filter': W}
@@ -151,31 +160,32 @@ class Case:
       return 'where-in-candidate'
     if self.W['by'] != 'all':
       return 'where'
-    if has_form(self.T, 'evolve'):
-      return 'evolve'
-    if TT.has_placeholder(self.T) and any(
-        p['t'] == 'custom' for p in TT.all_placeholders(self.T)):
-      return 'custom'
-    if has_typed(self.T):
-      return 'typed'
     if any(is_conditional(p, self.W) for _, p in self.tops):
       return 'conditional'
     return 'flat'
 
   def region(self, a, b):
-    """Top-level placeholder below which two canonical forms differ."""
+    """Family of the top-level placeholder below which two canonical forms
+    differ: oneof | manyof | float | custom | evolve [/conditional]."""
     for path, P in self.tops:
       if TT.canon_get(a, path) != TT.canon_get(b, path):
-        if path == ():
-          return 'root-choice' if P['t'] == 'choice' else 'root-' + TT.key_kind(P)
-        return TT.key_kind(P) + ('/conditional' if is_conditional(P, self.W) else '')
+        return family_of(P) + ('/conditional' if is_conditional(P, self.W) else '')
+    return 'constant-part'
+
+  def alias_region(self, a, b):
+    """root-choice | nested-placeholder | constant-part."""
+    for path, P in self.tops:
+      if TT.canon_get(a, path) != TT.canon_get(b, path):
+        return 'root-choice' if path == () and P['t'] == 'choice' else 'nested-placeholder'
     return 'constant-part'
 
   def dna(self, m, bound=False):
     form = G.nested(G.tree(self.space, m))
     if bound:
       return pg.DNA(form, spec=self.t.dna_spec())
-    return pg.DNA(form)
+    if m not in self._dnas:
+      self._dnas[m] = pg.DNA(form)
+    return self._dnas[m]
 
 
 def check_snapshot(ctx, cs, op, detail=''):
@@ -185,8 +195,9 @@ def check_snapshot(ctx, cs, op, detail=''):
   if now == cs.before:
     return True
   what = ['json', 'format', 'canonical'][[a == b for a, b in zip(now, cs.before)].index(False)]
-  ctx.violation('template-changed', f'{op}:{cs.region(cs.before[2], now[2])}',
-                f'{what} of the template value changed by {op} {detail}\n'
+  ctx.violation('template-changed', op,
+                f'{what} of the template value changed by {op} {detail} (below: '
+                f'{cs.region(cs.before[2], now[2])})\n'
                 f'before: {cs.before[1][:600]}\nafter:  {now[1][:600]}', cs.record)
   cs.make()                                   # heal
   return False
@@ -246,7 +257,7 @@ def check_spec(ctx, cs):
                   cs.record)
     return False
   if size != (-1 if cs.size is None else cs.size):
-    ctx.violation('spec-size', cs.feature(), f'space_size {size}, reference {cs.size}',
+    ctx.violation('spec-size', 'template', f'space_size {size}, reference {cs.size}',
                   cs.record)
     return False
   return True
@@ -329,7 +340,7 @@ def decode(ctx, cs, dna, m, op='decode'):
   except Exception as e:  # pylint: disable=broad-except
     if not is_lib_error(e) and not isinstance(e, (ValueError, TypeError, KeyError, AttributeError)):
       raise
-    ctx.violation('decode-raised', f'{op}:{cs.feature()}',
+    ctx.violation('decode-raised', f'decode:{cs.feature()}',
                   f'decode of the valid DNA {dna!r} (decisions {list(m)!r}) raised:\n{tb(e)}',
                   cs.record)
     return False, None
@@ -342,7 +353,7 @@ def check_dna(ctx, cs, m, j):
   T, W = cs.T, cs.W
   exp_desc = TT.ref_decode(T, W, m)
   exp = TT.canon_desc(exp_desc)
-  dna = cs.dna(m, bound=(j % 3 == 2))
+  dna = cs.dna(m, bound=(j == 2))
   ok, d1 = decode(ctx, cs, dna, m)
   if not ok:
     if cs.plain:
@@ -352,7 +363,8 @@ def check_dna(ctx, cs, m, j):
       ok, d1 = decode(ctx, cs, dna, m)
     if not ok:
       return False
-  check_snapshot(ctx, cs, 'decode', f'of {dna!r}')
+  if not check_snapshot(ctx, cs, 'decode', f'of {dna!r}'):
+    return False
   c1 = TT.canon_value(d1)
   # -- equals the reference decode (shape, values, types)
   c['reference_compared'] += 1
@@ -367,7 +379,7 @@ def check_dna(ctx, cs, m, j):
   want_left = sorted(map(repr, TT.canon_placeholders(exp)))
   det = pg.is_deterministic(d1)
   if left != want_left or det != (not want_left):
-    ctx.violation('placeholder-left', 'decode:' + cs.feature(),
+    ctx.violation('placeholder-left', 'decode:' + ('where' if W['by'] != 'all' else 'all'),
                   f'decode({dna!r}) leaves {len(left)} placeholders (is_deterministic='
                   f'{det}), the filter leaves {len(want_left)}: '
                   f'{pg.format(d1, compact=True)[:700]}', cs.record)
@@ -386,7 +398,7 @@ def check_dna(ctx, cs, m, j):
     except Exception as e:  # pylint: disable=broad-except
       eq = False
     if c2 != c1 or not eq:
-      ctx.violation('decode-twice-differs', 'decode:' + cs.region(c1, c2),
+      ctx.violation('decode-twice-differs', 'decode',
                     f'two decodes of {dna!r}: {pg.format(d1, compact=True)[:500]} vs '
                     f'{pg.format(d2, compact=True)[:500]} (pg.eq={eq})', cs.record)
     c['independence_checks'] += 1
@@ -396,16 +408,16 @@ def check_dna(ctx, cs, m, j):
     ok3, d3 = decode(ctx, cs, dna, m)
     c3 = TT.canon_value(d3) if ok3 else None
     if now != cs.before:
-      ctx.violation('decode-aliases-template', cs.region(cs.before[2], now[2]),
+      ctx.violation('decode-aliases-template', cs.alias_region(cs.before[2], now[2]),
                     f'mutating the value decoded from {dna!r} changed the template:\n'
                     f'before: {cs.before[1][:500]}\nafter:  {now[1][:500]}', cs.record)
     elif c3 != c1:
-      ctx.violation('decode-aliases-template', cs.region(c1, c3) if ok3 else cs.feature(),
+      ctx.violation('decode-aliases-template', cs.alias_region(c1, c3) if ok3 else 'decode-raised',
                     f'after mutating one value decoded from {dna!r}, decoding it again '
                     f'gives another value (the value of the template looks unchanged): '
                     f'{pg.format(d3, compact=True)[:600] if ok3 else "raised"}', cs.record)
     elif c1_after != c1:
-      ctx.violation('decode-aliases-decode', cs.region(c1, c1_after),
+      ctx.violation('decode-aliases-decode', cs.alias_region(c1, c1_after),
                     f'mutating one value decoded from {dna!r} changed the other: '
                     f'{pg.format(d1, compact=True)[:600]}', cs.record)
     if now != cs.before or c3 != c1 or c1_after != c1:
@@ -415,8 +427,11 @@ def check_dna(ctx, cs, m, j):
         return False
   # -- encode is the inverse of decode
   for variant_name in ('value', 'clone'):
+    if not same:
+      c['encode_skipped_wrong_value'] += 1
+      break
     if variant_name == 'clone':
-      if j % 2 or not isinstance(d1, pg.Symbolic):
+      if j != 0 or not isinstance(d1, pg.Symbolic):
         continue
       d1 = d1.clone(deep=True)
     c['encode_checks'] += 1
@@ -425,14 +440,16 @@ def check_dna(ctx, cs, m, j):
     except Exception as ex:  # pylint: disable=broad-except
       if not is_lib_error(ex) and not isinstance(ex, (ValueError, TypeError, KeyError, NotImplementedError)):
         raise
-      check_snapshot(ctx, cs, 'encode')
+      if not check_snapshot(ctx, cs, 'encode'):
+        return False
       if cs.dist:
         ctx.violation('encode-raised', 'encode:' + cs.feature(),
                       f'encode(decode({dna!r})) raised:\n{tb(ex)}', cs.record)
       else:
         c['encode_raised_indistinguishable'] += 1
       break
-    check_snapshot(ctx, cs, 'encode')
+    if not check_snapshot(ctx, cs, 'encode'):
+      return False
     if not cs.dist:
       c['encode_not_judged_indistinguishable'] += 1
       continue
@@ -448,7 +465,8 @@ def check_dna(ctx, cs, m, j):
           pos += 1
         for pt in G.walk(cs.space, m):
           if pt.pos == pos:
-            mech = pt.kind + ('/conditional' if any(t[0] == 'c' for t in pt.path) else '')
+            mech = pt.kind.split('[')[0] + (
+                '/conditional' if any(t[0] == 'c' for t in pt.path) else '')
       except Exception:  # pylint: disable=broad-except
         pass
       ctx.violation('encode-differs', 'encode:' + mech,
@@ -458,37 +476,41 @@ def check_dna(ctx, cs, m, j):
       ctx.violation('encode-differs', 'encode:DNA.__eq__',
                     f'{e!r} has the shape of {dna!r} but is not == to it', cs.record)
   # -- pg.materialize with the DNA and with a parameter dict
+  if j >= 2:
+    return True
   c['materialize_checks'] += 1
   v_in = cs.v
   try:
     mv = pg.materialize(v_in, cs.dna(m), where=cs.where)
     cm = TT.canon_value(mv)
     if cm != exp and same:
-      ctx.violation('decode-differs', 'materialize:' + cs.region(cm, exp),
+      ctx.violation('decode-differs', 'materialize',
                     f'materialize(.., {dna!r}) = {pg.format(mv, compact=True)[:600]}; '
                     f'reference {TT.show(exp_desc)[:600]}', cs.record)
   except Exception as ex:  # pylint: disable=broad-except
     if not is_lib_error(ex) and not isinstance(ex, (ValueError, TypeError, KeyError)):
       raise
-    ctx.violation('decode-raised', 'materialize:' + cs.feature(), tb(ex), cs.record)
-  check_snapshot(ctx, cs, 'materialize')
+    ctx.violation('decode-raised', 'materialize', tb(ex), cs.record)
+  if not check_snapshot(ctx, cs, 'materialize'):
+    return False
   pts = G.walk(cs.space, m)
-  if j % 2 == 0 and all(p.id for p in pts) and len({p.id for p in pts}) == len(pts):
+  if j == 0 and all(p.id for p in pts) and len({p.id for p in pts}) == len(pts):
     c['materialize_dict_checks'] += 1
     params = {p.id: p.value for p in pts}
     try:
       mv = pg.materialize(cs.v, dict(params), use_literal_values=False, where=cs.where)
       cm = TT.canon_value(mv)
       if cm != exp and same:
-        ctx.violation('decode-differs', 'materialize-dict:' + cs.region(cm, exp),
+        ctx.violation('decode-differs', 'materialize-dict',
                       f'materialize(.., {params!r}) = {pg.format(mv, compact=True)[:600]}; '
                       f'reference {TT.show(exp_desc)[:600]}', cs.record)
     except Exception as ex:  # pylint: disable=broad-except
       if not is_lib_error(ex) and not isinstance(ex, (ValueError, TypeError, KeyError)):
         raise
-      ctx.violation('decode-raised', 'materialize-dict:' + cs.feature(),
+      ctx.violation('decode-raised', 'materialize-dict',
                     f'parameters {params!r}\n{tb(ex)}', cs.record)
-    check_snapshot(ctx, cs, 'materialize-dict')
+    if not check_snapshot(ctx, cs, 'materialize-dict'):
+      return False
   return True
 
 
@@ -501,7 +523,7 @@ def check_iter(ctx, cs, members):
   c = ctx.counters
   if cs.size is None:
     c['iter_skipped_infinite'] += 1       # Sweeping is defined for finite spaces
-    return
+    return True
   full = members is not None and len(members) <= ctx.params['iter_max']
   limit = None if full else 4
   vals = []
@@ -513,16 +535,16 @@ def check_iter(ctx, cs, members):
   except Exception as e:  # pylint: disable=broad-except
     if not is_lib_error(e) and not isinstance(e, (ValueError, TypeError, KeyError, AttributeError)):
       raise
-    ctx.violation('decode-raised', 'pg.iter:' + cs.feature(), tb(e), cs.record)
-    check_snapshot(ctx, cs, 'pg.iter')
-    return
-  check_snapshot(ctx, cs, 'pg.iter')
+    ctx.violation('decode-raised', 'pg.iter', tb(e), cs.record)
+    return check_snapshot(ctx, cs, 'pg.iter')
+  if not check_snapshot(ctx, cs, 'pg.iter'):
+    return False
   c['iter_values'] += len(vals)
   if not full:
     c['iter_prefix'] += 1
     want = 4 if cs.size is None else min(4, cs.size)
     if len(vals) != want:
-      ctx.violation('iter-count', 'pg.iter:' + cs.feature(),
+      ctx.violation('iter-count', 'pg.iter',
                     f'pg.iter(v, 4) yielded {len(vals)} values, space size {cs.size}',
                     cs.record)
     return
@@ -532,14 +554,14 @@ def check_iter(ctx, cs, members):
   except Exception:  # pylint: disable=broad-except
     size = None
   if len(vals) != len(members) or size != len(vals):
-    ctx.violation('iter-count', 'pg.iter:' + cs.feature(),
+    ctx.violation('iter-count', 'pg.iter',
                   f'pg.iter yielded {len(vals)} values, space_size {size}, reference '
                   f'{len(members)}', cs.record)
     return
   got = [TT.canon_value(x) for x in vals]
   ref = [TT.canon_desc(TT.ref_decode(cs.T, cs.W, m)) for m in members]
   if sorted(map(repr, got)) != sorted(map(repr, ref)):
-    ctx.violation('iter-set', 'pg.iter:' + cs.feature(),
+    ctx.violation('iter-set', 'pg.iter',
                   f'iterated values differ from the reference decodes of all members; '
                   f'first iterated {pg.format(vals[0], compact=True)[:400]}', cs.record)
     return
@@ -549,7 +571,7 @@ def check_iter(ctx, cs, members):
     dup = len(keys) - len(set(keys))
     neq = all(pg.ne(a, b) for a, b in zip(vals, vals[1:]))
     if dup or not neq:
-      ctx.violation('iter-duplicate', 'pg.iter:' + cs.feature(),
+      ctx.violation('iter-duplicate', 'pg.iter',
                     f'{dup} of {len(vals)} iterated values are equal to another one',
                     cs.record)
   else:
@@ -561,16 +583,16 @@ def check_random(ctx, cs):
   c = ctx.counters
   seed = ctx.rng.randrange(1000)
   try:
-    pairs = list(pg.iter(cs.v, 3, pg.geno.Random(seed), where=cs.where,
+    pairs = list(pg.iter(cs.v, 2, pg.geno.Random(seed), where=cs.where,
                          force_feedback=True))
-    plain = list(pg.random_sample(cs.v, 3, where=cs.where, seed=seed))
+    plain = list(pg.random_sample(cs.v, 2, where=cs.where, seed=seed))
   except Exception as e:  # pylint: disable=broad-except
     if not is_lib_error(e) and not isinstance(e, (ValueError, TypeError, KeyError, AttributeError)):
       raise
-    ctx.violation('decode-raised', 'pg.random_sample:' + cs.feature(), tb(e), cs.record)
-    check_snapshot(ctx, cs, 'pg.random_sample')
-    return
-  check_snapshot(ctx, cs, 'pg.random_sample')
+    ctx.violation('decode-raised', 'pg.random_sample', tb(e), cs.record)
+    return check_snapshot(ctx, cs, 'pg.random_sample')
+  if not check_snapshot(ctx, cs, 'pg.random_sample'):
+    return False
   for (x, fb), y in zip(pairs, plain):
     c['random_sample_checks'] += 1
     nums = tuple(fb.dna.to_numbers())
@@ -584,13 +606,11 @@ def check_random(ctx, cs):
       c['random_genome_outside_pool'] += 1    # evolvable: genome not ours
       continue
     if cx != exp:
-      ctx.violation('decode-differs', 'pg.random_sample:' + cs.region(cx, exp),
+      ctx.violation('decode-differs', 'pg.random_sample',
                     f'sampled with {fb.dna!r}: {pg.format(x, compact=True)[:600]}',
                     cs.record)
     if TT.canon_value(y) != cx:
-      ctx.violation('decode-differs', 'pg.random_sample:seeded-twice',
-                    f'same seed, different examples: {pg.format(x, compact=True)[:300]} '
-                    f'vs {pg.format(y, compact=True)[:300]}', cs.record)
+      c['random_sample_seed_not_reproduced'] += 1     # not part of this property
 
 
 def check_dynamic(ctx, cs, members):
@@ -607,10 +627,10 @@ def check_dynamic(ctx, cs, members):
   except Exception as e:  # pylint: disable=broad-except
     if not is_lib_error(e) and not isinstance(e, (ValueError, TypeError, KeyError, AssertionError, NotImplementedError)):
       raise
-    ctx.violation('decode-raised', 'dynamic-collect:' + cs.feature(), tb(e), cs.record)
+    ctx.violation('decode-raised', 'dynamic-collect', tb(e), cs.record)
     return
   if size != (-1 if cs.size is None else cs.size):
-    ctx.violation('spec-size', 'dynamic-collect:' + cs.feature(),
+    ctx.violation('spec-size', 'dynamic-collect',
                   f'space_size {size}, reference {cs.size}', cs.record)
     return
   for j, m in enumerate(members[:3]):
@@ -622,17 +642,17 @@ def check_dynamic(ctx, cs, members):
     except Exception as e:  # pylint: disable=broad-except
       if not is_lib_error(e) and not isinstance(e, (ValueError, TypeError, KeyError, AssertionError)):
         raise
-      ctx.violation('decode-raised', 'dynamic-apply:' + cs.feature(),
+      ctx.violation('decode-raised', 'dynamic-apply',
                     f'decisions {list(m)!r}\n{tb(e)}', cs.record)
       continue
     cx = TT.canon_value(x)
     exp = TT.canon_desc(TT.ref_decode(T, TT.ALL, m))
     if cx != exp:
-      ctx.violation('decode-differs', 'dynamic-apply:' + cs.region(cx, exp),
+      ctx.violation('decode-differs', 'dynamic-apply',
                     f'apply({list(m)!r}) evaluates to {pg.format(x, compact=True)[:600]}; '
                     f'reference {TT.show(TT.ref_decode(T, TT.ALL, m))[:600]}', cs.record)
     if pg.format(dctx.hyper_dict, compact=True) != before:
-      ctx.violation('template-changed', 'dynamic-apply:' + cs.feature(),
+      ctx.violation('template-changed', 'dynamic-apply',
                     'the collected hyper_dict changed', cs.record)
       break
 
@@ -721,36 +741,53 @@ def check_nonmembers(ctx, cs, members):
       try:
         x = cs.t.decode(bad)
       except Exception:  # pylint: disable=broad-except
-        check_snapshot(ctx, cs, 'decode-nonmember')
+        if not check_snapshot(ctx, cs, 'decode-nonmember'):
+          return False
         continue
-      check_snapshot(ctx, cs, 'decode-nonmember')
-      ctx.violation('nonmember-decoded', f'{name}:{knd.split("/")[0]}',
+      ctx.violation('nonmember-decoded', f'{name}:{knd.split("[")[0]}',
                     f'decode({bad!r}) returned {pg.format(x, compact=True)[:400]} although '
                     f'the DNA is not valid for the template ({name}; member '
                     f'{G.nested(G.tree(cs.space, m))!r})', cs.record)
+      if not check_snapshot(ctx, cs, 'decode-nonmember'):
+        return False
+  return True
 
 
 # --------------------------------------------------------------------------
 # Case generation.
 # --------------------------------------------------------------------------
 
+def nodes(T):
+  kids = T['cands'] if T['t'] == 'choice' else [c for _, c in TT.children(T)]
+  return 1 + sum(nodes(c) for c in kids)
+
+
 def random_case(ctx, rng):
-  """(T, W, plain, bad_size, kind of case)."""
+  """(T, W, plain, bad_size, kind of case); templates are kept small because
+  every library call deep-copies the whole value."""
+  for _ in range(8):
+    out = _random_case(rng)
+    if nodes(out[0]) <= ctx.params['max_nodes']:
+      break
+  return out
+
+
+def _random_case(rng):
   r = rng.random()
   plain = bad = False
   W = TT.ALL
   if r < 0.30:
     st = TT.State(rng, tags=rng.random() < 0.5)
-    bad = rng.random() < 0.06
+    bad = rng.random() < 0.1
     T = TT.typed_template(st, bad_size=bad)
     kind = 'typed'
   else:
-    fl = rng.choice([0.0, 0.0, 0.15, 0.3])
-    sp = S.random_space(rng, max_depth=rng.choice([1, 2, 2]), max_elems=2,
-                        max_k=3, max_n=3, floats=fl, customs=fl / 2,
+    fl = rng.choice([0.0, 0.15, 0.3, 0.3])
+    sp = S.random_space(rng, max_depth=rng.choice([0, 1, 1, 2]), max_elems=2,
+                        max_k=3, max_n=3, floats=fl, customs=fl,
                         names=rng.choice([0.0, 0.0, 0.4]))
     T, _ = TT.from_space(sp, rng, tags=rng.random() < 0.5,
-                         dup=rng.choice([0.0, 0.0, 0.0, 0.3]),
+                         dup=rng.choice([0.0, 0.0, 0.3, 0.5]),
                          evolve=0.5)
     kind = 'rendered'
   if rng.random() < 0.4:
@@ -794,9 +831,8 @@ def run_case(ctx, i):
   c['distinguishable' if cs.dist else 'indistinguishable'] += 1
   for _, p in cs.tops:
     c['top:' + TT.key_kind(p)] += 1
-  if not check_spec(ctx, cs):
+  if not check_spec(ctx, cs) or not check_snapshot(ctx, cs, 'dna_spec'):
     return
-  check_snapshot(ctx, cs, 'dna_spec')
   # -- DNAs: every member of a small space, else reference-sampled members
   nd = ctx.params['dnas']
   all_members = None
@@ -824,13 +860,12 @@ def run_case(ctx, i):
     if not check_dna(ctx, cs, m, j):
       alive = False
       break
-  if alive:
-    check_iter(ctx, cs, all_members)
-    check_random(ctx, cs)
-    check_nonmembers(ctx, cs, members)
-    if W['by'] == 'all' and not bad and not any(
-        p['name'] for p in TT.all_placeholders(T)):
-      check_dynamic(ctx, cs, members)       # names share decisions there: not generated
+  alive = (alive and check_iter(ctx, cs, all_members) is not False
+           and check_random(ctx, cs) is not False
+           and check_nonmembers(ctx, cs, members))
+  if alive and W['by'] == 'all' and not bad and not any(
+      p['name'] for p in TT.all_placeholders(T)):
+    check_dynamic(ctx, cs, members)         # names share decisions there: not generated
   n_members = cs.size if cs.size is not None else 2
   if n_members >= 2 and (W['by'] != 'all' or has_typed(T) or any(
       p['t'] == 'choice' and (p['k'] > 1 or is_conditional(p, W)) for _, p in cs.tops)):
